@@ -174,6 +174,12 @@ def finish(ctx: Ctx, explanation: str, level: str = "other", selftest: Optional[
     known = [o for o in ctx.obs if o.status == "known"]
     oks = [o for o in ctx.obs if o.status == "ok"]
     os.makedirs(os.path.join(VERIF, "evidence", "replay"), exist_ok=True)
+    import glob as _glob
+    for stale in _glob.glob(os.path.join(VERIF, "evidence", "replay", f"{ctx.prop}-*.json")):
+        try:
+            os.remove(stale)  # replay files describe the last run of this property only
+        except OSError:
+            pass
     lines = []
     for i, o in enumerate(viol):
         rp = os.path.join(VERIF, "evidence", "replay", f"{ctx.prop}-{i}.json")
